@@ -153,6 +153,7 @@ func (p *processor) processSequence(event *Event) bool {
 			return false
 		}
 
+		verifTrace("p.out", uint64(event.Offset), uint64(p.id))
 		event.stage = eventStageOutput
 		p.router.Out(event)
 	}
@@ -418,6 +419,7 @@ func (p *processor) AddActionPlugin(info *ActionPluginInfo) {
 // Propagate flushes an event after ActionHold.
 func (p *processor) Propagate(event *Event) {
 	event.action++
+	verifTrace("p.propagate", uint64(event.Offset), uint64(p.id))
 	nextActionIdx := event.action
 	p.tryResetBusy(nextActionIdx - 1)
 	p.processSequence(event)
